@@ -5,7 +5,8 @@ CONSTANTS
   PurgeBelowSnapOnly = FALSE
   RestoreCopies = TRUE
   SharedFilesSafe = TRUE
-  MaxId = 3
-  MaxTerm = 4
+  MaxLen = 3
+  MaxTerm = 2
   MaxCkpt = 2
+  MaxRestore = 2
 INVARIANTS CheckpointExact CheckpointImmutable PurgeKeepsRestorable SnapRestorable
